@@ -767,6 +767,19 @@ impl<'a> Runner<'a> {
                 ),
             );
         }
+        if !lost.is_empty() && !self.relaxed && !budget_stop && work + completions + ended >= 48 {
+            // a call that did a budget's worth of work and then stopped with children still owed a
+            // poll, without waking its task: it stopped early and forgot the rest (C13), whether or
+            // not the stop went through the instrumented budget branch
+            self.violate(
+                "C13",
+                "stopped-early-without-wake",
+                format!(
+                    "{}: poll #{} polled {} children ({} finished) and then returned Pending without waking its task; children {:?} are still owed a poll",
+                    ctx, poll_no, work, completions + ended, &lost[..lost.len().min(4)]
+                ),
+            );
+        }
         if !lost.is_empty() && !self.relaxed {
             self.violate(
                 "C01",
